@@ -11,7 +11,17 @@ import (
 type SS struct{ st rpc.Stream }
 
 // Connect implements rpc.SetStream.
-func (s *SS) Connect(st rpc.Stream) error { s.st = st; return nil }
+func (s *SS) Connect(st rpc.Stream) error {
+	s.st = st
+	if ssConnectGate != nil {
+		ssConnectGate()
+	}
+	return nil
+}
+
+// ssConnectGate, when set by a scenario (and cleared at its end), runs inside every Connect: user
+// code that is slow while the library is connecting the stream.
+var ssConnectGate func()
 
 // StreamSvc is the registered stream service.
 type StreamSvc struct{ w *World }
